@@ -1278,7 +1278,7 @@ func TestCheck(t *testing.T) {
 	// 2 x 1; 1 runner x 3 closers), side by side
 	mcCfgs := ev.Pick([]string{"MC_small.cfg"}, []string{"MC_big.cfg", "MC_big_classes.cfg", "MC_big_closers.cfg"})
 	mcs := make([]tlc.Result, len(mcCfgs))
-	defects := []string{"MC_defect_closenonatomic.cfg", "MC_defect_gracezero_nofatal.cfg", "MC_defect_gracezero_race.cfg", "MC_defect_closercanceled.cfg", "MC_defect_skipctxdone.cfg", "MC_defect_addnocheck.cfg", "MC_defect_addcloser.cfg", "MC_defect_errsearly.cfg", "MC_defect_releaselate.cfg", "MC_defect_filterctxerr.cfg"}
+	defects := []string{"MC_defect_closenonatomic.cfg", "MC_defect_gracezero_nofatal.cfg", "MC_defect_gracezero_race.cfg", "MC_defect_gracezero_window.cfg", "MC_defect_closercanceled.cfg", "MC_defect_skipctxdone.cfg", "MC_defect_addnocheck.cfg", "MC_defect_addcloser.cfg", "MC_defect_errsearly.cfg", "MC_defect_releaselate.cfg", "MC_defect_filterctxerr.cfg"}
 	dres := make([]tlc.Result, len(defects))
 	for i := range mcCfgs {
 		wg.Add(1)
@@ -1288,19 +1288,13 @@ func TestCheck(t *testing.T) {
 				Timeout: ev.Pick(5*time.Minute, 45*time.Minute), HeapMB: ev.Pick(8000, 7000), Args: []string{"-noGenerateSpecTE"}})
 		}()
 	}
-	// informational: does the model of the code as it stands (grace closer re-checking closeFatalShutdown) still let the
-	// fatal action run with a grace period of 0 and nothing to close?  (the goroutine of the grace closer can reach its
-	// timer before Run closed closeFatalShutdown)
-	var lead tlc.Result
 	wg.Add(1)
-	go func() { // the small defect / lead configurations one after the other: a dozen JVMs at once would starve the free-running family
+	go func() { // the small defect configurations one after the other: a dozen JVMs at once would starve the free-running family
 		defer wg.Done()
 		for i := range defects {
 			dres[i] = tlc.Run(tlc.Opts{Dir: "Managers", Module: "CloserMgr", Config: defects[i], Workers: 2, Timeout: 5 * time.Minute,
 				Args: []string{"-noGenerateSpecTE"}})
 		}
-		lead = tlc.Run(tlc.Opts{Dir: "Managers", Module: "CloserMgr", Config: "MC_lead_gracezero_window.cfg", Workers: 2, Timeout: 5 * time.Minute,
-			Args: []string{"-noGenerateSpecTE"}})
 	}()
 
 	// 2. the real code, scenario by scenario
@@ -1494,7 +1488,6 @@ func TestCheck(t *testing.T) {
 		}
 	}
 	e.Set("mc_defect_variants_rejected", det)
-	e.Set("model_grace_zero_nothing_to_close_fatal_reachable", lead.Violation)
 }
 
 // selfTest: the unmodified trace of a rich scenario is accepted; the same trace
